@@ -5,17 +5,24 @@ Import ListNotations.
 Local Open Scope string_scope.
 Local Open Scope list_scope.
 
-(** ** events that no trace predicate of the invariant looks at *)
-Definition special_names : list string := ["g_slot"; "g_scan_begin"; "g_scan_end"; "retire"; "dispose"; "overflow"].
-Definition neutral (e : ev) : bool :=
+(** ** events that the trace predicates of the invariant do not look at.
+       [quiet]: not a scan marker, not retire / dispose / overflow (the ghost slot store is allowed);
+       [neutral]: quiet and not a ghost slot store. *)
+Definition loud_names : list string := ["g_scan_begin"; "g_scan_end"; "retire"; "dispose"; "overflow"].
+Definition quiet (e : ev) : bool :=
   match e with
   | EvAcc _ _ _ => true
-  | EvCli n _ => negb (existsb (String.eqb n) special_names)
+  | EvCli n _ => negb (existsb (String.eqb n) loud_names)
   end.
+Definition neutral (e : ev) : bool :=
+  (quiet e && negb (is_cli_named "g_slot" e))%bool.
 
-Lemma neutral_name n args s : neutral (EvCli n args) = true -> In s special_names -> String.eqb n s = false.
+Lemma neutral_quiet e : neutral e = true -> quiet e = true.
+Proof. unfold neutral. intros H. apply andb_true_iff in H. tauto. Qed.
+
+Lemma quiet_name n args s : quiet (EvCli n args) = true -> In s loud_names -> String.eqb n s = false.
 Proof.
-  unfold neutral. intros H Hs. apply negb_true_iff in H. destruct (String.eqb n s) eqn:E; auto.
+  unfold quiet. intros H Hs. apply negb_true_iff in H. destruct (String.eqb n s) eqn:E; auto.
   exfalso. rewrite <- not_true_iff_false in H. apply H. apply existsb_exists. exists s; auto.
 Qed.
 
@@ -23,26 +30,27 @@ Lemma neutral_slot e r j cur : neutral e = true -> slot_upd r j e cur = cur.
 Proof.
   destruct e as [k o b|n args]; [reflexivity|]. intros H. cbn.
   destruct args as [|a [|b [|v [|w rest]]]]; try reflexivity.
-  rewrite (neutral_name _ _ "g_slot" H) by (cbn; tauto). reflexivity.
+  unfold neutral in H. apply andb_true_iff in H. destruct H as (_ & H). cbn in H.
+  apply negb_true_iff in H. rewrite H. reflexivity.
 Qed.
 
-Lemma neutral_not_sb t t' e : neutral e = true -> is_sb t (t', e) = false.
+Lemma quiet_not_sb t t' e : quiet e = true -> is_sb t (t', e) = false.
 Proof.
   destruct e as [k o b|n args]; unfold is_sb; cbn [fst snd is_cli_named]; [now rewrite andb_false_r|]. intros H.
-  rewrite (neutral_name _ _ "g_scan_begin" H) by (cbn; tauto). now rewrite andb_false_r.
+  rewrite (quiet_name _ _ "g_scan_begin" H) by (cbn; tauto). now rewrite andb_false_r.
 Qed.
 
-Lemma neutral_not_ev name p e :
-  In name ["retire"; "dispose"; "overflow"] -> neutral e = true -> is_ev name p e = false.
+Lemma quiet_not_ev name p e :
+  In name ["retire"; "dispose"; "overflow"] -> quiet e = true -> is_ev name p e = false.
 Proof.
   intros Hn. destruct e as [k o b|n args]; [reflexivity|]. intros H. cbn.
   destruct args as [|x [|y rest]]; try reflexivity.
-  rewrite (neutral_name _ _ name H); [reflexivity|]. cbn in *. tauto.
+  rewrite (quiet_name _ _ name H); [reflexivity|]. cbn in *. tauto.
 Qed.
 
-Lemma neutral_not_dispose e p : neutral e = true -> e <> ev_dispose p.
+Lemma quiet_not_dispose e p : quiet e = true -> e <> ev_dispose p.
 Proof. intros H ->. discriminate. Qed.
-Lemma neutral_not_scan_end e r kept : neutral e = true -> e <> ev_scan_end r kept.
+Lemma quiet_not_scan_end e r kept : quiet e = true -> e <> ev_scan_end r kept.
 Proof. intros H ->. discriminate. Qed.
 
 Lemma firstn_app_le {A} (l l' : list A) i : i <= List.length l -> firstn i (l ++ l') = firstn i l.
@@ -58,11 +66,11 @@ Proof.
   rewrite neutral_slot by (apply H; now left). apply IH. intros; apply H; now right.
 Qed.
 
-Lemma last_sb_neutral tr t es t' :
-  (forall e, In e es -> neutral e = true) -> last_sb (tr ++ Conc.tag t es) t' = last_sb tr t'.
+Lemma last_sb_quiet tr t es t' :
+  (forall e, In e es -> quiet e = true) -> last_sb (tr ++ Conc.tag t es) t' = last_sb tr t'.
 Proof.
   intros H. apply last_sb_app_other. intros te Hin. unfold Conc.tag in Hin.
-  apply in_map_iff in Hin. destruct Hin as (e & <- & He). apply neutral_not_sb. now apply H.
+  apply in_map_iff in Hin. destruct Hin as (e & <- & He). apply quiet_not_sb. now apply H.
 Qed.
 
 Lemma seen_in_ext tr es s e v : e <= List.length tr -> seen_in tr s e v -> seen_in (tr ++ es) s e v.
@@ -136,6 +144,61 @@ Proof. unfold resp_last. now rewrite last_ev_tag_same. Qed.
 Lemma tag_nil t : @Conc.tag ev t [] = [].
 Proof. reflexivity. Qed.
 
+(** the trace-only clauses under quiet events *)
+Definition cov_cl (c : cfgT) (a : Aux) (tr : trace) : Prop :=
+  forall t sv, v_scan (view a t) = Some sv ->
+    exists s, last_sb tr t = Some s /\
+      (forall r j v, covered (cH c) sv r j -> v <> 0%Z -> held tr s r j v -> In v (sc_coll sv)) /\
+      (forall v, In v (sc_coll sv) -> seen_in tr s (List.length tr) v).
+Definition bal_cl (g : G) (a : Aux) (tr : trace) : Prop :=
+  forall p, cnt "retire" p tr = (cnt "dispose" p tr + cnt "overflow" p tr + pend p g a)%Z.
+Definition idle_cl (a : Aux) (tr : trace) : Prop := forall t, resp_last tr t -> idle (view a t).
+
+Lemma cov_cl_quiet c a tr t es :
+  cov_cl c a tr -> (forall e, In e es -> quiet e = true) -> cov_cl c a (tr ++ Conc.tag t es).
+Proof.
+  intros Hc Hq t' sv Hsv. destruct (Hc t' sv Hsv) as (s & Hs & Hcv & Hsn).
+  exists s. rewrite last_sb_quiet by exact Hq. pose proof (last_sb_lt _ _ _ Hs) as Hlt.
+  split; [exact Hs|]. split.
+  - intros r j v Hcov Hv Hh. apply (Hcv r j v Hcov Hv). eapply held_prefix; [lia|exact Hh].
+  - intros v Hv. rewrite app_length. eapply seen_in_mono; [|apply seen_in_ext; [|apply Hsn; exact Hv]]; lia.
+Qed.
+
+Lemma bal_cl_quiet g a tr t es :
+  bal_cl g a tr -> (forall e, In e es -> quiet e = true) -> bal_cl g a (tr ++ Conc.tag t es).
+Proof.
+  intros Hb Hq p. rewrite !cnt_app.
+  rewrite !(cnt_tag_none) by (intros e He; apply quiet_not_ev; [cbn; tauto|auto]). rewrite Hb. lia.
+Qed.
+
+Lemma safe_cl_quiet c tr t es :
+  safe_cl c tr -> (forall e, In e es -> quiet e = true) -> safe_cl c (tr ++ Conc.tag t es).
+Proof.
+  intros Hs Hq. apply safe_cl_ext; [exact Hs|].
+  intros k t' p s Hk. apply nth_error_tag in Hk. destruct Hk as (_ & Hk).
+  exfalso. apply nth_error_In in Hk. eapply quiet_not_dispose; [apply Hq; exact Hk|reflexivity].
+Qed.
+
+Lemma kept_cl_quiet tr t es :
+  kept_cl tr -> (forall e, In e es -> quiet e = true) -> kept_cl (tr ++ Conc.tag t es).
+Proof.
+  intros Hs Hq. apply kept_cl_ext; [exact Hs|].
+  intros k t' r kept s Hk. apply nth_error_tag in Hk. destruct Hk as (_ & Hk).
+  exfalso. apply nth_error_In in Hk. eapply quiet_not_scan_end; [apply Hq; exact Hk|reflexivity].
+Qed.
+
+Lemma idle_cl_ext a tr t es :
+  idle_cl a tr ->
+  (forall es' e, es = es' ++ [e] -> is_resp e = true -> idle (view a t)) ->
+  idle_cl a (tr ++ Conc.tag t es).
+Proof.
+  intros Hi Hr t' Hrl. destruct (Nat.eq_dec t' t) as [->|Hne].
+  - destruct es as [|e0 es0] using rev_ind.
+    + rewrite tag_nil, app_nil_r in Hrl. auto.
+    + apply resp_last_same in Hrl. eapply Hr; eauto.
+  - apply Hi. apply (resp_last_other tr t' t es); [congruence|exact Hrl].
+Qed.
+
 Lemma inv_neutral c g a tr t es :
   Inv c g a tr ->
   (forall e, In e es -> neutral e = true) ->
@@ -143,26 +206,14 @@ Lemma inv_neutral c g a tr t es :
   Inv c g a (tr ++ Conc.tag t es).
 Proof.
   intros HI Hn Hr. destruct HI.
-  constructor; auto.
+  assert (Hq : forall e, In e es -> quiet e = true) by (intros; apply neutral_quiet; auto).
+  apply mkInv; auto.
   - intros r j. rewrite slot_at_neutral by exact Hn. auto.
-  - intros p. rewrite !cnt_app.
-    rewrite !(cnt_tag_none) by (intros e He; apply neutral_not_ev; [cbn; tauto|auto]). rewrite i_bal. lia.
-  - intros t' sv Hsv. destruct (i_cov t' sv Hsv) as (s & Hs & Hc & Hsn).
-    exists s. rewrite last_sb_neutral by exact Hn. pose proof (last_sb_lt _ _ _ Hs) as Hlt.
-    split; [exact Hs|]. split.
-    + intros r j v Hcv Hv Hh. apply (Hc r j v Hcv Hv). eapply held_prefix; [lia|exact Hh].
-    + intros v Hv. rewrite app_length. eapply seen_in_mono; [|apply seen_in_ext; [|apply Hsn; exact Hv]]; lia.
-  - change (safe_cl c (tr ++ Conc.tag t es)). apply safe_cl_ext; [exact i_safe|].
-    intros k t' p s Hk. apply nth_error_tag in Hk. destruct Hk as (_ & Hk).
-    exfalso. apply nth_error_In in Hk. eapply neutral_not_dispose; [apply Hn; exact Hk|reflexivity].
-  - change (kept_cl (tr ++ Conc.tag t es)). apply kept_cl_ext; [exact i_kept|].
-    intros k t' r kept s Hk. apply nth_error_tag in Hk. destruct Hk as (_ & Hk).
-    exfalso. apply nth_error_In in Hk. eapply neutral_not_scan_end; [apply Hn; exact Hk|reflexivity].
-  - intros t' Hrl. destruct (Nat.eq_dec t' t) as [->|Hne].
-    + destruct es as [|e0 es0] using rev_ind.
-      * rewrite tag_nil, app_nil_r in Hrl. auto.
-      * apply resp_last_same in Hrl. eapply Hr; eauto.
-    + apply i_idle. apply (resp_last_other tr t' t es); [congruence|exact Hrl].
+  - now apply bal_cl_quiet.
+  - now apply cov_cl_quiet.
+  - now apply safe_cl_quiet.
+  - now apply kept_cl_quiet.
+  - now apply idle_cl_ext.
 Qed.
 
 (** the usual case: one access event *)
@@ -315,3 +366,112 @@ Qed.
 Lemma inv_xchg_src c g a tr k v :
   Inv c g a tr -> Inv c (mkG (g_list g) (g_recs g) (fun i => if Nat.eqb i k then v else g_srcs g i)) a tr.
 Proof. intros HI. eapply inv_irrel; [exact HI|reflexivity|reflexivity|]. intros r. auto. Qed.
+
+(** ** 5. store into a hazard slot of the attached record *)
+Definition ev_slot (r j : nat) (v : Z) : ev := EvCli "g_slot" [zn r; zn j; v].
+Definition st_slot_evs (r j : nat) (v : Z) : list ev := [EvAcc KSt (obj_slot r j) true; ev_slot r j v].
+
+Lemma st_slot_quiet r j v e : In e (st_slot_evs r j v) -> quiet e = true.
+Proof. intros [<-|[<-|[]]]; reflexivity. Qed.
+
+Lemma slot_at_st tr t r j v r' j' :
+  slot_at (tr ++ Conc.tag t (st_slot_evs r j v)) r' j' =
+  if (Nat.eqb r' r && Nat.eqb j' j)%bool then v else slot_at tr r' j'.
+Proof.
+  rewrite slot_at_app. cbn.
+  destruct (Nat.eqb_spec r' r) as [->|Hr]; destruct (Nat.eqb_spec j' j) as [->|Hj]; cbn.
+  - now rewrite !Z.eqb_refl.
+  - rewrite Z.eqb_refl. destruct (Z.eqb_spec (zn j) (zn j')) as [E|E]; [apply zn_inj in E; congruence|reflexivity].
+  - destruct (Z.eqb_spec (zn r) (zn r')) as [E|E]; [apply zn_inj in E; congruence|reflexivity].
+  - destruct (Z.eqb_spec (zn r) (zn r')) as [E|E]; [apply zn_inj in E; congruence|reflexivity].
+Qed.
+
+Lemma gslot_st g r j v r' j' : r < List.length (g_recs g) ->
+  gslot (upd_rec g r (set_slot j v)) r' j' = if (Nat.eqb r' r && Nat.eqb j' j)%bool then v else gslot g r' j'.
+Proof.
+  intros Hlt. unfold gslot. destruct (Nat.eqb_spec r' r) as [->|Hr]; cbn.
+  - rewrite get_upd_same by exact Hlt. cbn. reflexivity.
+  - rewrite get_upd_other by exact Hr. reflexivity.
+Qed.
+
+Definition with_clr (v : lview) (k : nat) : lview := mkV (v_rec v) (v_held v) k (v_scan v) (v_cl v) (v_seen v).
+
+Lemma excl_rec_held c g a tr t t' r :
+  Inv c g a tr -> v_rec (view a t) = Some r -> In r (v_held (view a t')) -> False.
+Proof.
+  intros HI H1 H2. assert (t = t') by (eapply (i_excl _ _ _ _ HI); [left; exact H1|right; exact H2]). subst t'.
+  destruct (i_self _ _ _ _ HI t) as (_ & H). eapply H; eauto.
+Qed.
+
+Lemma inv_st_slot c g a tr t r j v k' :
+  Inv c g a tr -> v_rec (view a t) = Some r -> j < cH c ->
+  (forall i, i < k' -> (i < v_clr (view a t) /\ i <> j) \/ (i = j /\ v = 0%Z)) ->
+  Inv c (upd_rec g r (set_slot j v)) (upd_view a t (with_clr (view a t) k'))
+      (tr ++ Conc.tag t (st_slot_evs r j v)).
+Proof.
+  intros HI Hrec Hj Hk.
+  assert (Hlt : r < List.length (g_recs g)) by (eapply owns_lt; [exact HI|left; exact Hrec]).
+  pose proof (excl_rec_held _ _ _ _ t) as Hex. specialize (fun t' => Hex t' r HI Hrec).
+  destruct HI.
+  set (g' := upd_rec g r (set_slot j v)). set (a' := upd_view a t (with_clr (view a t) k')).
+  assert (Hown : forall r', r_owner (get_rec g' r') = r_owner (get_rec g r')).
+  { intros r'. unfold g'. destruct (Nat.eq_dec r' r) as [->|Hne];
+      [rewrite get_upd_same by exact Hlt|rewrite get_upd_other by exact Hne]; reflexivity. }
+  assert (Hret : forall r', r_ret (get_rec g' r') = r_ret (get_rec g r')).
+  { intros r'. unfold g'. destruct (Nat.eq_dec r' r) as [->|Hne];
+      [rewrite get_upd_same by exact Hlt|rewrite get_upd_other by exact Hne]; reflexivity. }
+  assert (Hlen : List.length (g_recs g') = List.length (g_recs g)) by apply upd_rec_length.
+  assert (Hq := st_slot_quiet r j v).
+  assert (Hvr : forall t', v_rec (view a' t') = v_rec (view a t')) by (intros t'; unfold a'; vcase t' t; reflexivity).
+  assert (Hvh : forall t', v_held (view a' t') = v_held (view a t')) by (intros t'; unfold a'; vcase t' t; reflexivity).
+  assert (Hvc : forall t', v_cl (view a' t') = v_cl (view a t')) by (intros t'; unfold a'; vcase t' t; reflexivity).
+  assert (Hvs : forall t', v_scan (view a' t') = v_scan (view a t')) by (intros t'; unfold a'; vcase t' t; reflexivity).
+  assert (Hvn : forall t', v_seen (view a' t') = v_seen (view a t')) by (intros t'; unfold a'; vcase t' t; reflexivity).
+  assert (Ho : forall t' r', owns (view a' t') r' <-> owns (view a t') r').
+  { intros t' r'. unfold owns. rewrite Hvr, Hvh. tauto. }
+  apply mkInv.
+  - intros r' j'. rewrite slot_at_st. unfold g'. rewrite gslot_st by exact Hlt. rewrite i_slot. reflexivity.
+  - intros r' j' H. rewrite Hown in H. unfold g'. rewrite gslot_st by exact Hlt.
+    destruct (Nat.eqb_spec r' r) as [->|Hr]; cbn; [|auto].
+    destruct (i_rec t r Hrec) as (Ht & _). congruence.
+  - intros r' j' H. unfold g'. rewrite gslot_st by exact Hlt.
+    destruct (Nat.eqb_spec r' r) as [->|Hr]; cbn; [|auto].
+    destruct (i_rec t r Hrec) as (_ & Ht). exfalso. apply H. exact Ht.
+  - intros r' j' H. unfold g'. rewrite gslot_st by exact Hlt.
+    destruct (Nat.eqb_spec j' j) as [->|Hjj]; [lia|]. rewrite andb_false_r. auto.
+  - intros r' H. rewrite Hlen. auto.
+  - intros t' r' H. rewrite Hvr in H. rewrite Hown. apply (i_rec t' r' H).
+  - intros t' r' H. rewrite Hvh in H. rewrite Hlen, Hown. destruct (i_held t' r' H) as (H1 & H2 & H3).
+    repeat split; auto. intros j'. unfold g'. rewrite gslot_st by exact Hlt.
+    destruct (Nat.eqb_spec r' r) as [->|Hr]; cbn; [|auto]. exfalso. eapply Hex; eauto.
+  - intros t1 t2 r' H1 H2. apply Ho in H1. apply Ho in H2. eauto.
+  - intros t'. rewrite Hvr, Hvh. auto.
+  - intros t' r' i H1 H2. rewrite Hvr in H1. unfold g'. rewrite gslot_st by exact Hlt.
+    unfold a' in H2. vcase t' t.
+    + cbn in H2. assert (r' = r) by congruence. subst r'. rewrite Nat.eqb_refl. cbn.
+      destruct (Hk i H2) as [(Ha & Hb)|(Ha & Hb)].
+      * destruct (Nat.eqb_spec i j); [congruence|]. eauto.
+      * subst i. now rewrite Nat.eqb_refl.
+    + destruct (Nat.eqb_spec r' r) as [->|Hr]; cbn; [|eauto].
+      exfalso. assert (t' = t) by (eapply i_excl; left; eauto). congruence.
+  - intros r' H. rewrite Hlen in H. destruct (i_unl r' H) as [H1|(t' & H1)]; [now left|right].
+    exists t'. now rewrite Hvh.
+  - intros t' r' H. rewrite Hvn in H. eauto.
+  - intros t' cl H. rewrite Hvc in H. destruct (i_claim t' cl H) as (H1 & H2). split; [now apply Ho|].
+    destruct cl; cbn in *; rewrite Hret; exact H2.
+  - intros t'. rewrite Hvc. auto.
+  - intros r' x H. destruct (i_eff r' x H) as (t' & cl & H1 & H2). exists t', cl. now rewrite Hvc.
+  - assert (Hb : bal_cl g a (tr ++ Conc.tag t (st_slot_evs r j v))) by (apply bal_cl_quiet; auto).
+    intros p. rewrite Hb. f_equal. symmetry. apply pend_ext; [exact Hlen|].
+    intros r' _. unfold effc. rewrite Hret. reflexivity.
+  - assert (Hc : cov_cl c a (tr ++ Conc.tag t (st_slot_evs r j v))) by (apply cov_cl_quiet; auto).
+    intros t' sv H. rewrite Hvs in H. apply (Hc t' sv H).
+  - apply safe_cl_quiet; auto.
+  - apply kept_cl_quiet; auto.
+  - assert (Hi : idle_cl a (tr ++ Conc.tag t (st_slot_evs r j v))).
+    { apply idle_cl_ext; [exact i_idle|]. intros es' e He Hresp. exfalso.
+      assert (e = ev_slot r j v).
+      { unfold st_slot_evs in He. destruct es' as [|x [|y l]]; cbn in He; inversion He; auto. destruct l; discriminate. }
+      subst e. discriminate. }
+    intros t' H. specialize (Hi t' H). unfold idle in *. now rewrite Hvh, Hvc.
+Qed.
